@@ -576,7 +576,7 @@ func SerializeColumnsToRows(cs *ColumnSeries, dataShapes []DataShape, align64 bo
 	colInBytesList := make([][]byte, 0, len(dataShapes))
 	for _, shape := range dataShapes {
 		colName := shape.Name
-		if strings.EqualFold(colName, "Epoch") {
+		if colName == "Epoch" {
 			shapesContainsEpoch = true
 		}
 		columnData := cs.columns[colName]
@@ -614,7 +614,7 @@ func SerializeColumnsToRows(cs *ColumnSeries, dataShapes []DataShape, align64 bo
 	for i, epoch := range epochCol {
 		data, _ = Serialize(data, epoch)
 		for j, shape := range dataShapes {
-			if strings.EqualFold(shape.Name, "Epoch") {
+			if shape.Name == "Epoch" {
 				continue
 			}
 			word := shape.Type.SliceInBytesAt(colInBytesList[j], i)
